@@ -2,6 +2,8 @@
 Hypothesis strategies shared by several properties: names, numeric literals, expression text.
 All strategies produce plain JSON-serialisable data (strings, lists, dicts).
 """
+import os
+
 from hypothesis import strategies as st
 
 # A pool in which names are prefixes / suffixes of one another and of number tails.
@@ -112,3 +114,12 @@ def expression(draw, names, max_leaves=8, funcs=FUNCS, ops=('+', '-', '*', '/', 
 def chance(num, den):
     """True with probability ~num/den (sampled_from is close to uniform; st.integers is biased to small values)."""
     return st.sampled_from([False] * (den - num) + [True] * num)
+
+
+def deep():
+    """True in the thorough tier: generators may draw larger sizes (more variables, longer histories, longer horizons)."""
+    return os.environ.get('VERIF_TIER', 'quick') == 'thorough'
+
+
+def size(quick, thorough):
+    return thorough if deep() else quick
